@@ -334,9 +334,6 @@ fn opt_for(rng: &mut Rng) -> Opt {
     }
     let mut bits = rng.below(128) as u8;
     bits &= !1; // empty_as_braces stays on: empty collections would otherwise be unspecified
-    if rng.chance(3, 4) {
-        bits &= !(1 << 5);
-    }
     let mut o = Opt::from_bits(bits, *rng.pick(&[2usize, 2, 4, 3]));
     if rng.bool() {
         o.min_fold_chars = *rng.pick(&[0usize, 8, 64]);
@@ -364,7 +361,7 @@ fn judge(run: &Run, doc: &Doc, o: &Opt) {
             if effect == "panic" {
                 sig = Some(format!("C20:panic:{}", vcore::obs::panic_site(&detail)));
             }
-            let repairs: [(&str, &dyn Fn(&mut Doc)); 4] = [
+            let repairs: [(&str, &dyn Fn(&mut Doc)); 5] = [
                 ("C20:comment:cr-injects-content", &|d: &mut Doc| d.map_comments(&|c| c.replace('\r', ""))),
                 ("C20:space-after:string-kept-with-trailing-breaks-gains-a-line-break", &|d: &mut Doc| {
                     if let Some(t) = &mut d.tail {
@@ -373,6 +370,9 @@ fn judge(run: &Run, doc: &Doc, o: &Opt) {
                 }),
                 ("C20:block-string-wrapper:indentation-indicator-in-nested-position", &|d: &mut Doc| {
                     d.map_block_strings(&|s| s.split('\n').map(|l| l.trim_start_matches(' ')).collect::<Vec<_>>().join("\n"))
+                }),
+                ("C20:block-string-wrapper:single-line-break-only", &|d: &mut Doc| {
+                    d.map_block_strings(&|s| if s == "\n" { "x\n".to_string() } else { s.to_string() })
                 }),
                 ("C20:block-string-wrapper:string-of-line-breaks-only", &|d: &mut Doc| {
                     d.map_block_strings(&|s| if !s.is_empty() && s.chars().all(|c| c == '\n') { format!("x{s}") } else { s.to_string() })
